@@ -22,7 +22,7 @@ from typing import (
 )
 from urllib.parse import urlsplit, urlunsplit
 
-from aiohttp.http_exceptions import InvalidHeader
+from aiohttp.http_exceptions import BadHttpMessage
 from aiohttp.http_parser import HeadersParser
 from multidict import CIMultiDictProxy
 
@@ -310,7 +310,8 @@ class SsdpProtocol(DatagramProtocol):
         if is_valid_ssdp_packet(data):
             try:
                 request_line, headers = decode_ssdp_packet(data, self.local_addr, addr)
-            except InvalidHeader as exc:
+            except BadHttpMessage as exc:
+                # InvalidHeader, LineTooLong, ...
                 _LOGGER.debug("Ignoring received packet with invalid headers: %s", exc)
                 return
 
